@@ -332,8 +332,11 @@ Fixpoint gp_env_get (x : gname) (en : list gpframe) : option gpvalue :=
   | [] => None
   | fr :: rest => match gp_frame_get x fr with Some v => Some v | None => gp_env_get x rest end
   end.
+(* package-level variables, the map heap (names of their own: the proofs keep these lookups folded) *)
+Definition gp_glob_get (x : gname) (g : gpframe) : option gpvalue := gp_frame_get x g.
+Definition gp_heap_get (h : list (list (name * gpvalue))) (c : nat) : option (list (name * gpvalue)) := nth_error h c.
 Definition gp_get (x : gname) (st : gpstate) : option gpvalue :=
-  match gp_env_get x (gp_env st) with Some v => Some v | None => gp_frame_get x (gp_glob st) end.
+  match gp_env_get x (gp_env st) with Some v => Some v | None => gp_glob_get x (gp_glob st) end.
 
 (* x := v declares x in the innermost scope (a variable already declared THERE is re-used); _ is the blank identifier *)
 Definition gp_define1 (x : gname) (v : gpvalue) (st : gpstate) : option gpstate :=
@@ -620,7 +623,7 @@ Section Interp.
         match v, vi with
         | GpvSlice l, GpvInt n => match nth_error l n with Some r => GpOk [r] st2 | None => GpPanic end   (* index out of range *)
         | GpvMap (Some c), GpvStr k =>
-          match nth_error (gp_maps st2) c with
+          match gp_heap_get (gp_maps st2) c with
           | Some m => match gp_map_get k m with Some r => GpOk [r] st2 | None => GpOk [GpvZero] st2 end
           | None => GpStuck
           end
@@ -631,7 +634,7 @@ Section Interp.
       gp_bind1 (gp_eval m st) (fun vm st1 => gp_bind1 (gp_eval k st1) (fun vk st2 =>
         match vm, vk with
         | GpvMap (Some c), GpvStr s =>
-          match nth_error (gp_maps st2) c with
+          match gp_heap_get (gp_maps st2) c with
           | Some mm => match gp_map_get s mm with Some r => GpOk [r; GpvBool true] st2 | None => GpOk [GpvZero; GpvBool false] st2 end
           | None => GpStuck
           end
@@ -784,7 +787,7 @@ Section Interp.
       gp_bind1 (gp_eval m st) (fun vm st1 => gp_bind1 (gp_eval k st1) (fun vk st2 => gp_bind1 (gp_eval v st2) (fun vv st3 =>
         match vm, vk with
         | GpvMap (Some c), GpvStr key =>
-          match nth_error (gp_maps st3) c with
+          match gp_heap_get (gp_maps st3) c with
           | Some mm => GpOk GsgNext (gp_with_maps st3 (gp_list_set c (gp_map_set key vv mm) (gp_maps st3)))
           | None => GpStuck
           end
@@ -818,7 +821,7 @@ Section Interp.
         | GpvSlice l => gp_loop (fun it st2 => gp_scoped block (gp_bind_item k v it) body st2) (gp_index_items 0 l) st1
         | GpvMap None => GpOk GsgNext st1
         | GpvMap (Some c) =>
-          match nth_error (gp_maps st1) c with
+          match gp_heap_get (gp_maps st1) c with
           | Some m => gp_loop (fun it st2 => gp_scoped block (gp_bind_item k v it) body st2) (map (fun kv => (GpvStr (fst kv), snd kv)) (perm m)) st1
           | None => GpStuck
           end
@@ -987,24 +990,28 @@ Definition gp_isort_rev (less : gpvalue -> gpvalue -> bool) (l : list gpvalue) :
 (* ---- the canonical programs ------------------------------------------------------------------------------------------- *)
 Local Open Scope gname_scope.
 (* generator/features.go *)
+Definition canon_ff_names_body : list gpstmt :=
+  [ GpsIf [] (GpxEq (GpxVar "name") (GpxStr "all"))
+          [ GpsAssign ["required"] (GpxVar "defaultFeatures"); GpsBreak ] [];
+    GpsDefine ["feat"; "ok"] (GpxIndexOk (GpxVar "defaultFeatures") (GpxVar "name"));
+    GpsIf [] (GpxNot (GpxVar "ok"))
+          [ GpsReturn [GpxNil; GpxErrorf "unknown feature: %q" [GpxVar "name"]] ] [];
+    GpsSetIndex (GpxVar "required") (GpxVar "name") (GpxVar "feat") ].
+Definition canon_ff_required_body : list gpstmt :=
+  [ GpsAssign ["sorted"] (GpxAppend (GpxVar "sorted") (GpxStruct "namefeat" [GpxVar "name"; GpxVar "feat"])) ].
+Definition canon_ff_less : gpexpr :=
+  GpxLt (GpxSel (GpxIndex (GpxVar "sorted") (GpxVar "i")) "name") (GpxSel (GpxIndex (GpxVar "sorted") (GpxVar "j")) "name").
+Definition canon_ff_sorted_body : list gpstmt :=
+  [ GpsAssign ["features"] (GpxAppend (GpxVar "features") (GpxSel (GpxVar "sp") "feat")) ].
 Definition canon_findFeatures_body : list gpstmt :=
   [ GpsDefine ["required"] (GpxMakeMap "map[string]Feature");
-    GpsRange "_" "name" (GpxVar "featureNames")
-      [ GpsIf [] (GpxEq (GpxVar "name") (GpxStr "all"))
-              [ GpsAssign ["required"] (GpxVar "defaultFeatures"); GpsBreak ] [];
-        GpsDefine ["feat"; "ok"] (GpxIndexOk (GpxVar "defaultFeatures") (GpxVar "name"));
-        GpsIf [] (GpxNot (GpxVar "ok"))
-              [ GpsReturn [GpxNil; GpxErrorf "unknown feature: %q" [GpxVar "name"]] ] [];
-        GpsSetIndex (GpxVar "required") (GpxVar "name") (GpxVar "feat") ];
+    GpsRange "_" "name" (GpxVar "featureNames") canon_ff_names_body;
     GpsTypeStruct "namefeat" [("name", "string"); ("feat", "Feature")];
     GpsVar "sorted" "[]namefeat";
-    GpsRange "name" "feat" (GpxVar "required")
-      [ GpsAssign ["sorted"] (GpxAppend (GpxVar "sorted") (GpxStruct "namefeat" [GpxVar "name"; GpxVar "feat"])) ];
-    GpsSortSlice "sorted" "i" "j"
-      (GpxLt (GpxSel (GpxIndex (GpxVar "sorted") (GpxVar "i")) "name") (GpxSel (GpxIndex (GpxVar "sorted") (GpxVar "j")) "name"));
+    GpsRange "name" "feat" (GpxVar "required") canon_ff_required_body;
+    GpsSortSlice "sorted" "i" "j" canon_ff_less;
     GpsVar "features" "[]Feature";
-    GpsRange "_" "sp" (GpxVar "sorted")
-      [ GpsAssign ["features"] (GpxAppend (GpxVar "features") (GpxSel (GpxVar "sp") "feat")) ];
+    GpsRange "_" "sp" (GpxVar "sorted") canon_ff_sorted_body;
     GpsReturn [GpxVar "features"; GpxNil] ].
 
 Definition canon_features_go : list gpdecl :=
@@ -1207,11 +1214,11 @@ Definition gp_registry_ok (feat_gen : gpvalue -> bool) (reg : gpmap) : Prop :=
   forall n v, gp_map_get n reg = Some v -> feat_gen v = match lookup n with Some g => g | None => false end.
 (* a state in which defaultFeatures is the map [reg] *)
 Definition gp_features_state (st : gpstate) (reg : gpmap) : Prop :=
-  exists c, gp_frame_get "defaultFeatures"%gname (gp_glob st) = Some (GpvMap (Some c)) /\ nth_error (gp_maps st) c = Some reg.
+  exists c, gp_glob_get "defaultFeatures"%gname (gp_glob st) = Some (GpvMap (Some c)) /\ gp_heap_get (gp_maps st) c = Some reg.
 (* a state in which reservedFieldNames is a map with exactly GenNames.reserved as keys, in cell r *)
 Definition gp_reserved_state (st : gpstate) (r : nat) : Prop :=
-  gp_frame_get "reservedFieldNames"%gname (gp_glob st) = Some (GpvMap (Some r)) /\
-  exists rm, nth_error (gp_maps st) r = Some rm /\ forall g, (gp_map_get g rm <> None <-> is_reserved g = true).
+  gp_glob_get "reservedFieldNames"%gname (gp_glob st) = Some (GpvMap (Some r)) /\
+  exists rm, gp_heap_get (gp_maps st) r = Some rm /\ forall g, (gp_map_get g rm <> None <-> is_reserved g = true).
 
 (* (a) findFeatures interpreted = GenOrder.find_features, whatever order the map of required features is iterated in and whatever
        sort algorithm sort.Slice uses; it leaves one new map behind and nothing else *)
@@ -1232,7 +1239,7 @@ Definition reserved_literal_stmt : Prop :=
        the variables are untouched *)
 Definition rewrite_prog_stmt : Prop :=
   forall perm sorter feat_gen fuel st r q i p t done,
-    gp_reserved_state st r -> q <> r -> nth_error (gp_maps st) q = Some done -> gp_get_msg (gp_files st) i p = Some t ->
+    gp_reserved_state st r -> q <> r -> gp_heap_get (gp_maps st) q = Some done -> gp_get_msg (gp_files st) i p = Some t ->
     pm_depth t <= fuel ->
     gp_call perm sorter feat_gen canon_genprog fuel "rewriteMessageField"%gname [GpvMsg i p; GpvMap (Some q)] st
     = GpOk [] (gp_with_maps (gp_with_files st (gp_set_msg (gp_files st) i p (fst (gp_rw_msg t done))))
